@@ -36,6 +36,15 @@ func encodeTLS(v *wireVec) (*wireCase, error) {
 		c.first = append([]byte{0x80, 0x2e, 0x01, 0x03, 0x01}, filler(43, 9)...)
 	case "http":
 		c.first = []byte("GET / HTTP/1.1\r\nHost: a.example.com\r\n\r\n")
+	case "hslong", "twofrag":
+		// hello = record header (5) + handshake message; cut the handshake message in two
+		body := hello[5:]
+		cut := len(body) / 2
+		rec := func(b []byte) []byte { return append([]byte{0x16, hello[1], hello[2], byte(len(b) >> 8), byte(len(b))}, b...) }
+		c.first = rec(body[:cut]) // its handshake header announces len(body)-4 bytes, the record carries cut-4
+		if ms_(m, "kind") == "twofrag" {
+			c.first = append(c.first, rec(body[cut:])...)
+		}
 	case "emptyrec":
 		c.first = []byte{0x16, 3, 1, 0, 0}
 	case "shortrec":
